@@ -27,7 +27,7 @@ ASSUMPTIONS = [
 ]
 
 MANIFEST = {
-    "category": "partial",
+    "category": "proof",
     "text": "Coq (Properties_C14_merge.v, closed under the global context) about Merge.merge, a branch-by-branch transcription of "
             "lyd_merge_siblings / lyd_merge_sibling_r (matching by instance identity, duplicate-instance cache, leaf overwrite with "
             "default-flag handling and LYD_MERGE_DEFAULTS / WITH_FLAGS, the walk up of lyd_np_cont_dflt_del/_set, recursion without "
@@ -35,7 +35,7 @@ MANIFEST = {
             "(C14_merge_canon) and keeps identities unique (C14_merge_uniq); every explicit source node addressed by its instance "
             "path is in the result with the source's value (C14_merge_contains_source_partial); target nodes whose path the source "
             "does not contain are unchanged (C14_merge_keeps_rest_partial); merging the same source again changes nothing "
-            "(C14_merge_idempotent_partial); merge into the empty tree yields the source (C14_merge_empty_partial). Tie: the "
+            "(C14_merge_idempotent_partial); merge into the empty tree yields the source, duplicate-instance lists included (C14_merge_empty). Tie: the "
             "extracted model and lyd_merge_siblings run on the same dumped operands with all 8 option combinations (destructive "
             "and non-destructive against the ONE model function, so both give the same result), the source dump before/after, a "
             "second merge and the invariant checker; dumps must agree byte for byte incl. default flags and metadata "
@@ -43,7 +43,7 @@ MANIFEST = {
             "with insert_node, print). The API oracle mergedup (also under ASan) checks the same laws plus duplicates: equal per "
             "option set, into another context, and independent (editing / freeing either tree leaves the other's dump unchanged).",
     "note": "PARTIAL. (1) Independence of a duplicate / of the merge source is a heap property (no shared mutable state): the value "
-            "model cannot express it, Merge.dup is the identity; only the sanitizer-backed oracle looks at it. (2) The four "
+            "model cannot express it, Merge.dup is the identity; only the sanitizer-backed oracle looks at it. (2) The three "
             "_partial theorems do not speak about instances of duplicate-instance lists (key-less lists, config false leaf-lists): "
             "they have no instance path and are matched by position through the lyd_dup_inst cache; the model implements that "
             "(and T2 exercises it), the theorems exclude it. (3) lyd_dup_* options (parents, no-meta, to another context) are not "
